@@ -1,6 +1,6 @@
 #!/bin/bash
 # usage: tools/run_all.sh [quick|thorough] [props...]
-cd /verif; tier=${1:-quick}; shift
+cd "$(dirname "$0")/.."; tier=${1:-quick}; shift
 props=${@:-C01 C02 C03 C04 C05 C06 C07 C08 C09 C10 C11 C12 C13 C14 C15 C16 C17 C18 C19}
 mkdir -p out/runall
 for p in $props; do
